@@ -103,10 +103,10 @@ fn round_quot(
     rem: u128,
     divisor: u128,
     mode: Option<RoundingMode>,
-) -> i128 {
+) -> Option<i128> {
     if rem == 0 {
         // no need for rounding
-        return quot;
+        return Some(quot);
     }
     // here: |divisor| >= 2 => rem <= |divident| / 2,
     // therefor it's safe to use rem << 1
@@ -121,25 +121,25 @@ fn round_quot(
             // or quotient negativ and (quotient + 1) not
             // divisible by 5 w/o rem. => add 1
             if quot >= 0 && quot % 5 == 0 || quot < 0 && (quot + 1) % 5 != 0 {
-                return quot + 1;
+                return quot.checked_add(1);
             }
         }
         RoundingMode::RoundCeiling => {
             // Round towards Infinity (i. e. not away from 0 if negative):
             // => always add 1
-            return quot + 1;
+            return quot.checked_add(1);
         }
         RoundingMode::RoundDown => {
             // Round towards 0 (aka truncate):
             // quotient negativ => add 1
             if quot < 0 {
-                return quot + 1;
+                return quot.checked_add(1);
             }
         }
         RoundingMode::RoundFloor => {
             // Round towards -Infinity (i.e. not towards 0 if negative):
             // => never add 1
-            return quot;
+            return Some(quot);
         }
         RoundingMode::RoundHalfDown => {
             // Round 5 down, rest to nearest:
@@ -148,7 +148,7 @@ fn round_quot(
             // => add 1
             let rem_doubled = rem << 1;
             if rem_doubled > divisor || rem_doubled == divisor && quot < 0 {
-                return quot + 1;
+                return quot.checked_add(1);
             }
         }
         RoundingMode::RoundHalfEven => {
@@ -160,7 +160,7 @@ fn round_quot(
             if rem_doubled > divisor
                 || rem_doubled == divisor && quot % 2 != 0
             {
-                return quot + 1;
+                return quot.checked_add(1);
             }
         }
         RoundingMode::RoundHalfUp => {
@@ -170,19 +170,19 @@ fn round_quot(
             // => add 1
             let rem_doubled = rem << 1;
             if rem_doubled > divisor || rem_doubled == divisor && quot >= 0 {
-                return quot + 1;
+                return quot.checked_add(1);
             }
         }
         RoundingMode::RoundUp => {
             // Round away from 0:
             // quotient not negative => add 1
             if quot >= 0 {
-                return quot + 1;
+                return quot.checked_add(1);
             }
         }
     }
     // fall-through: round towards 0
-    quot
+    Some(quot)
 }
 
 /// Divide 'divident' by 'divisor' and round result according to 'mode'.
@@ -199,7 +199,12 @@ pub fn i128_div_rounded(
     }
     let (quot, rem) = i128_div_mod_floor(divident, divisor);
     // div_mod_floor with divisor > 0 => rem >= 0
-    round_quot(quot, rem as u128, divisor as u128, mode)
+    // quot == i128::MAX => divisor == 1 => rem == 0, so rounding can not
+    // overflow
+    match round_quot(quot, rem as u128, divisor as u128, mode) {
+        Some(quot) => quot,
+        None => unreachable!(),
+    }
 }
 
 /// Divide 'divident * 10^p' by 'divisor' and round result according to
@@ -218,7 +223,7 @@ pub fn i128_shifted_div_rounded(
     }
     let (quot, rem) = i128_shifted_div_mod_floor(divident, p, divisor)?;
     // div_mod_floor with divisor > 0 => rem >= 0
-    Some(round_quot(quot, rem as u128, divisor as u128, mode))
+    round_quot(quot, rem as u128, divisor as u128, mode)
 }
 
 /// Divide 'x * y' by '10^p' and round result according to 'mode'.
@@ -233,7 +238,7 @@ pub fn i128_mul_div_ten_pow_rounded(
     let divisor = ten_pow(p);
     let (quot, rem) = i256_div_mod_floor(x, y, divisor)?;
     // div_mod_floor with divisor > 0 => rem >= 0
-    Some(round_quot(quot, rem as u128, divisor as u128, mode))
+    round_quot(quot, rem as u128, divisor as u128, mode)
 }
 
 #[cfg(feature = "std")]
